@@ -99,7 +99,8 @@ def _check_1d(desc, tier, V, st):
     if not S.per:
         try:
             itc = SplineInterpolator1D(bs, dtype=complex)
-            for name, u, v in (('e0+i e1', np.eye(n)[0], np.eye(n)[min(1, n - 1)]), ('poly', pts ** min(d, 2), 1.0 - pts), ('dense', np.cos(pts), 2.5 * np.sin(3 * pts) - 1)):
+            for name, u, v in (('e0+i e1', np.eye(n)[0], np.eye(n)[min(1, n - 1)]), ('poly', pts ** min(d, 2), 1.0 - pts), ('dense', np.cos(pts), 2.5 * np.sin(3 * pts) - 1),
+                               ('dense*1e-17', 1e-17 * np.cos(pts), 1e-17 * (2.5 * np.sin(3 * pts) - 1)), ('tiny-imaginary-part', np.cos(pts), 1e-16 * (2.5 * np.sin(3 * pts) - 1))):
                 st['evals'] += 1
                 if nontriv:
                     st['nontrivial'] += 1
@@ -107,9 +108,13 @@ def _check_1d(desc, tier, V, st):
                 splc = Spline1D(bs, complex)
                 itc.compute_interpolant(z, splc)
                 want = S.coeffs(u) + 1j * S.coeffs(v)
-                tol = 64 * EPS * cond * (d + 1) * max(1.0, float(np.abs(z).max()))
-                if not (np.abs(np.asarray(splc.coeffs) - want).max() <= tol):
-                    V('complex-coefficients:' + cls, '%s data=%s: complex coefficients off by %.3g' % (key, name, np.abs(np.asarray(splc.coeffs) - want).max()))
+                got_c = np.asarray(splc.coeffs)
+                # real and imaginary parts are solved independently (real matrix): each is judged against its own scale
+                tr = 64 * EPS * cond * (d + 1) * max(1e-300, float(np.abs(u).max()))
+                ti = 64 * EPS * cond * (d + 1) * max(1e-300, float(np.abs(v).max()))
+                if not (np.abs(got_c.real - want.real).max() <= tr and np.abs(got_c.imag - want.imag).max() <= ti):
+                    V('complex-coefficients:' + cls, '%s data=%s: complex coefficients off by %.3g (real part) / %.3g (imaginary part, scale %.3g)' % (
+                        key, name, np.abs(got_c.real - want.real).max(), np.abs(got_c.imag - want.imag).max(), float(np.abs(v).max())))
         except Exception as e:  # noqa
             V('complex-exception:%s:%s' % (cls, type(e).__name__), '%s: complex interpolation raised %s: %s' % (key, type(e).__name__, e))
     # interpolator and spline created with different dtype arguments (real data): the coefficients are still the solution
